@@ -90,3 +90,42 @@ Theorem C09_hidden_rows_created_not_written :
     forall row, In row (out s) -> fst row <> T.
 Proof. exact hidden_rows_created_not_written. Qed.
 Print Assumptions C09_hidden_rows_created_not_written.
+
+(* ---- hidden fields read THROUGH a random_reference (LazyLoadedObjectReference -> RowHistory.load_row) ---- *)
+
+(* Whatever the field is called - hidden or visible - reading it through a random_reference to a row
+   of this run's history gives the value the row itself has (child rows included; forward-reference
+   slots, which the history flattens, aside). *)
+Theorem C09_field_through_random_reference_is_the_rows_field :
+  forall h cells c f w,
+    find_cell (c_table c) (c_id c) cells = Some c ->
+    in_history h (c_table c) (c_id c) = true ->
+    py_own_attr f || String.eqb f "sql_tablename" || String.eqb f "_data" = false ->
+    row_attr c f = Some w -> (forall n, w <> VSlot n) ->
+    hist_attr h cells (c_table c) (c_id c) f = Ok w.
+Proof. exact hist_attr_live. Qed.
+Print Assumptions C09_field_through_random_reference_is_the_rows_field.
+
+Theorem C09_missing_field_through_random_reference_is_an_error :
+  forall h cells c f,
+    find_cell (c_table c) (c_id c) cells = Some c ->
+    in_history h (c_table c) (c_id c) = true ->
+    py_own_attr f || String.eqb f "sql_tablename" || String.eqb f "_data" = false ->
+    row_attr c f = None ->
+    hist_attr h cells (c_table c) (c_id c) f = Err (DGE "history-attr").
+Proof. exact hist_attr_missing. Qed.
+Print Assumptions C09_missing_field_through_random_reference_is_an_error.
+
+(* non-vacuity, through the whole interpreter: a child row parked in a hidden field of a
+   random_reference target is reached through the picked reference (draw 0 = the only row) *)
+Example C09_hidden_child_through_random_reference :
+  run_rows (mkRecipe 3 []
+    [SObj (Tpl "P" None None false
+        [("__kid", FNested (Tpl "K" None None false [("k", FLitInt 8)] [])); ("__n", FLitInt 17)] []);
+     SObj (Tpl "D" None None false
+        [("__who", FRandRef "P");
+         ("a", FFormula [PExpr (EAttr (EAttr (EVar "__who") "__kid") "k")]);
+         ("c", FFormula [PExpr (EAttr (EVar "__who") "__n")])] [])] [0]) 1
+  = Ok [("K", [("id", OInt 1); ("k", OInt 8)]); ("P", [("id", OInt 1)]);
+        ("D", [("id", OInt 1); ("a", OInt 8); ("c", OInt 17)])].
+Proof. vm_compute. reflexivity. Qed.
